@@ -97,6 +97,23 @@ func (x *Exec) lookupProgramVar(name string, env *TrEnv) (*Term, bool) {
 				}
 			}
 		}
+		if obj == nil && x.c != nil && x.fi.Sig != nil {
+			// the names in the contract header are positional: a parameter or receiver renamed in the code is still found
+			var ps []*types.Var
+			if x.fi.Recv != nil {
+				ps = append(ps, x.fi.Recv)
+			}
+			for i := 0; i < x.fi.Sig.Params().Len(); i++ {
+				ps = append(ps, x.fi.Sig.Params().At(i))
+			}
+			if len(ps) == len(x.c.Params) {
+				for i, pn := range x.c.Params {
+					if pn == name {
+						obj = ps[i]
+					}
+				}
+			}
+		}
 	}
 	v, ok := obj.(*types.Var)
 	if !ok || v == nil {
